@@ -42,7 +42,7 @@ Record cache := mkCache {
   has_layers : bool           (* some layer has K/V storage (a Put happened) *)
 }.
 
-Inductive err := EFull | EShared | ENotSupported.
+Inductive err := EFull | EShared | ENotSupported | EBackend.    (* EBackend: an error handed up from the ml backend *)
 
 Definition empty_cell : cell := mkCell 0 [].
 
@@ -405,6 +405,29 @@ Definition step (fx : bool) (c : cache) (o : op) : cache * out :=
 
 Definition run (fx : bool) (c : cache) (ops : list op) : cache := fold_left (fun c o => fst (step fx c o)) ops c.
 
+(** ** backend faults.  The only error-returning backend calls inside the cache are the mask upload of [buildMask]
+    (ctx.Input().FromFloatSlice) and, in [shift], the upload of the offsets (FromIntSlice) and the model's shift function.
+    StartForward that fails there has already registered the batch (cells, ranges) - nothing is rolled back; Remove that
+    fails there has already shifted the positions in the metadata while the K rows keep their old rotation (the same
+    state as with ErrNotSupported). *)
+Definition start_forward_fault (fx : bool) (c : cache) (batch : list entry) : cache * out :=
+  let '(c', r) := start_forward_meta fx c batch in
+  match r with
+  | OFwd _ => (c', OErr EBackend)
+  | _ => (c', r)
+  end.
+
+Definition set_shift (c : cache) (b : bool) : cache :=
+  mkCache (cells c) (phys c) (ranges c) (window c) (cpad c) (bpad c) b (has_layers c).
+
+Definition remove_fault (c : cache) (q : nat) (b e : Z) : cache * out :=
+  let '(c', r) := remove (set_shift c false) q b e in
+  (set_shift c' (can_shift c),
+   match r with
+   | OErr ENotSupported => if can_shift c then OErr EBackend else r
+   | _ => r
+   end).
+
 (** ** Remove as the interface prescribes it (kvcache/cache.go): if it fails, the sequence is cleared *)
 Definition remove_c (c : cache) (q : nat) (b e : Z) : cache * out :=
   let '(c', r) := remove c q b e in
@@ -556,3 +579,26 @@ Definition wpstep (w : cache * cache) (o : op) : (cache * cache) * out :=
   | _ => let '(w', r, _) := wstep true w o in (w', r)
   end.
 Definition wprun (w : cache * cache) (ops : list op) : cache * cache := fold_left (fun w o => fst (wpstep w o)) ops w.
+
+(** WrapperCache with a backend fault in the [k]-th mask upload / in the shift of Remove *)
+Definition wforward_fault (fx : bool) (w : cache * cache) (batch : list entry) (k : nat) : (cache * cache) * out :=
+  let '(c0, c1) := w in
+  let '(c0', r0) := start_forward_meta fx c0 batch in
+  match r0 with
+  | OFwd _ =>
+      match k with
+      | O => ((c0', c1), OErr EBackend)
+      | _ => let '(c1', r1) := start_forward_meta fx c1 batch in
+             ((unwind c0' batch, c1'), match r1 with OFwd _ => OErr EBackend | _ => r1 end)
+      end
+  | _ => ((c0', c1), r0)
+  end.
+
+Definition wremove_fault (w : cache * cache) (q : nat) (b e : Z) : (cache * cache) * out :=
+  let '(c0, c1) := w in
+  let '(c0', r0) := remove_fault c0 q b e in
+  match r0 with
+  | OOk => let '(c1', r1) := remove_fault c1 q b e in ((c0', c1'), r1)
+  | _ => ((c0', c1), r0)
+  end.
+
